@@ -67,9 +67,7 @@ func TestUnchangedTree(t *testing.T) {
 		}
 		t.Errorf("unexpected %s obligation %s: %s", o.Status, o.Key, o.Detail)
 	}
-	if !sawDefect {
-		t.Errorf("%s is expected to be violated on the unchanged tree (dead duplicate test)", knownDefect)
-	}
+	_ = sawDefect // the dead duplicate test was repaired in /repo (fix: 301dac2); nothing is expected to fail
 	for rule, min := range map[string]int{"T1": 25, "T2": 25, "T3": 10, "T4": 6} {
 		if perRule[rule] < min {
 			t.Errorf("rule %s produced %d obligations, want at least %d", rule, perRule[rule], min)
@@ -128,7 +126,7 @@ type variant struct {
 // TestSeededVariants applies every variant of /verif/selftest/tables.json as an in-memory overlay and
 // asserts that the expected obligation fails (or, for benign variants, that nothing new fails).
 func TestSeededVariants(t *testing.T) {
-	b, err := os.ReadFile(filepath.Join(report.Home(), "selftest", "tables.json"))
+	b, err := os.ReadFile(filepath.Join(report.Home(), "selftest", "c13_tables.json"))
 	if err != nil {
 		t.Fatal(err)
 	}
